@@ -127,6 +127,9 @@ static void strpool_init(void) {
 #define NKEY 64
 static int64_t tblkey_int(int64_t idx) {
   int i = (int)(((idx % NKEY) + NKEY) % NKEY);
+  /* eight keys that collide with the 3+i*ADVM family in every table size and differ from key 3 (and from each other)
+   * by multiples of 2^32: only a comparison of all 64 bits tells them apart */
+  if (idx >= 88 && idx < 96) return 3 + (((int64_t)(idx - 87) * ADVM) << 32);
   if (i < 28) return 3 + (int64_t)i * ADVM;
   if (i < 44) return 4 + (int64_t)(i - 28) * ADVM;
   return i - 44;
@@ -1636,7 +1639,7 @@ static void containers_generate(Plan* p, Rng* r) {
   }
   int nops = rng_chance(r, 7, 10) ? 8 + (int)rng_below(r, 40) : 40 + (int)rng_below(r, 230);
   int mode = 0, mode_left = 0, seqctr = (int)rng_below(r, 64);
-  int badpct = focus == 12 ? 22 : focus == 19 ? 14 : (focus == 0 || focus == 5) ? 3 : 0;
+  int badpct = focus == 12 ? 22 : focus == 19 ? 14 : (focus == 0 || focus == 5 || focus == 2 || focus == 3 || focus == 4) ? 3 : 0;
   for (int step = 0; step < nops && p->nops < MAXOPS - 8; step++) {
     if (mode_left-- <= 0) { mode = (int)rng_below(r, 4); mode_left = 6 + (int)rng_below(r, 40); }
     if (g_nlive() == 0) { gen_new(p, r, focus); continue; }
